@@ -330,7 +330,7 @@ pub fn run(c: Compiled, opts: &RunOpts) -> RunOut {
                 }
                 if want_depths && o.depth_anomaly.is_none() {
                     // activation key: the call/gosub/handler history that led here
-                    let key = crate::engine::hash64(&(v.return_address_stack, v.go_sub_address_stack, v.context.verif_states_len(), v.stacktrace));
+                    let key = crate::engine::hash64(&(v.return_address_stack, v.go_sub_address_stack, v.context.verif_states_len(), v.stacktrace, v.last_error_address));
                     let d = [v.value_stack, v.register_stack, v.var_path_stack, v.by_ref_stack, v.context.verif_argument_states_len()];
                     match o.depth_seen.get(&(v.index, key)) {
                         Some(prev) => {
